@@ -404,6 +404,10 @@ class Program:
             raise NotConst(f"{base}.{attr}")
         if isinstance(base, _uuid.UUID) and attr in ("bytes", "bytes_le", "hex", "int"):
             return getattr(base, attr)
+        if isinstance(base, EnumConst) and attr == "value":
+            return int(base)
+        if isinstance(base, EnumConst) and attr == "name" and getattr(base, "member", None):
+            return base.member
         raise NotConst(ast.unparse(node))
 
     def _fold_call(self, node: ast.Call, mi, ci):
